@@ -9,8 +9,14 @@ from . import tlc as T
 TRACE_CFG = "SPECIFICATION TraceSpec\nCHECK_DEADLOCK FALSE\n"
 
 
+ALL_FOCUS = ["C01", "C02", "C06", "C13", "C17", "EXC"]
+
+
 def _slim(tr, i):
-    return {"id": i, "pr": bool(tr["pr"]), "events": tr["events"]}
+    d = {"id": i, "pr": bool(tr["pr"]), "events": tr["events"], "focus": tr.get("focus") or ALL_FOCUS}
+    if tr.get("ref") is not None:
+        d["ref"] = tr["ref"]
+    return d
 
 
 def _judge_batch(args):
